@@ -28,15 +28,18 @@ func (r *Result) Crashed() bool {
 	if r.Signal != "" {
 		return true
 	}
-	if r.Exit != 0 && r.Exit != 1 {
-		return true
+	if r.Exit < 0 {
+		return true // could not be started / harness failure
 	}
-	for _, m := range []string{"panic:", "goroutine ", "fatal error:", "runtime error:"} {
+	// A Go panic or runtime fatal error prints a goroutine trace and exits with status 2;
+	// status 2 alone is also what the flag package uses for a usage error, which is a
+	// diagnostic, not a crash.
+	for _, m := range []string{"panic:", "fatal error:", "runtime error:", "[running]:"} {
 		if strings.Contains(r.Stderr, m) {
 			return true
 		}
 	}
-	return false
+	return r.Exit > 2
 }
 
 // Runner runs the convergen binary with an explicit environment.
